@@ -140,3 +140,27 @@ Theorem C07_source_expire_all : forall start cnt,
   run_expire_all_sync start cnt = Some ([("store", [VStr "cacheEntry.E"; VZ start])], Some (VZ (cnt + 1)), true).
 Proof. intros; split; [exact (tie_expire_all_sharded _ _)|exact (tie_expire_all_sync _ _)]. Qed.
 Print Assumptions C07_source_expire_all.
+
+From Cache Require Import TieTransfer TieDefaults.
+
+(* DeleteAll removes and counts every entry it iterates over; Len adds up the shard sizes / counts the entries Range
+   hands out *)
+Theorem C07_source_delete_all_and_len : forall cnt sz,
+  (run_delete_all_body fn_shardedMap_DeleteAll cnt = Some ([("delete", [])], Some (VZ (cnt + 1))) /\
+   run_delete_all_body fn_shardedMapOf_DeleteAll cnt = Some ([("delete", [])], Some (VZ (cnt + 1)))) /\
+  run_sync_cb fn_syncMap_DeleteAll cnt = Some ([("delete", [])], Some (VZ (cnt + 1)), true) /\
+  run_sync_cb fn_syncMap_Len cnt = Some ([], Some (VZ (cnt + 1)), true) /\
+  (run_len_body fn_shardedMap_Len cnt sz = Some ([("RLock", []); ("RUnlock", [])], Some (VZ (cnt + sz))) /\
+   run_len_body fn_shardedMapOf_Len cnt sz = Some ([("RLock", []); ("RUnlock", [])], Some (VZ (cnt + sz)))).
+Proof.
+  intros; split; [exact (tie_delete_all_sharded _)|split; [exact (tie_delete_all_sync _)|split; [exact (tie_len_sync _)|exact (tie_len_sharded _ _)]]].
+Qed.
+Print Assumptions C07_source_delete_all_and_len.
+
+(* the configuration defaults the model applies (eff_ttl, eff_del_after, jitter 0 -> 0.1) are Trait.init's *)
+Theorem C07_source_defaults : forall ttl da jz jit dis,
+  run_init ttl da jz =
+  Some (Some (VZ (eff_ttl (mkBcfg ttl jit dis da 0))), Some (VZ (eff_del_after (mkBcfg ttl jit dis da 0))),
+        Some (VF (if jz then FConst 3602879701896397 36028797018963968 else FSym "ExpirationJitter"))).
+Proof. exact tie_trait_defaults. Qed.
+Print Assumptions C07_source_defaults.
